@@ -35,7 +35,7 @@ func init() {
 			{ID: "C15-R1", Title: "usable object: no use through an unassigned embedded pointer; helpers pass constants through", Decides: "every exported constructor returns a usable object", Floor: 230, Run: func(c *core.Ctx) { c15r1(c); returnsUndecorated(c, "C15") }},
 			{ID: "C15-R2", Title: "New<Name> uses Type<Name>; type values are unique", Decides: "every constructor's type identifier is the one declared for it", Floor: 200, Run: c15r2},
 			{ID: "C15-R3", Title: "characteristics agree with the metadata", Decides: "type, format, permissions, unit, min/max/step, default", Floor: 146, Run: c15r3},
-			{ID: "C15-R4", Title: "services agree with the metadata", Decides: "required characteristics present, no duplicate types", Floor: 43, Run: c15r4},
+			{ID: "C15-R4", Title: "services agree with the metadata; the characteristic list of a service is written by package service only", Decides: "required characteristics present, no duplicate types", Floor: 43, Run: func(c *core.Ctx) { c15r4(c); serviceCharacteristicsWriters(c) }},
 			{ID: "C15-R5", Title: "constructors without metadata entry, accessories, categories", Decides: "internal consistency of the rest of the catalogue", Floor: 35, Run: func(c *core.Ctx) { c15r5(c); accessoryServicesAdded(c) }},
 			{ID: "C15-R6", Title: "bound setters and SetValue act unconditionally", Decides: "constructors hold exactly the constants they name; every constructor is usable", Floor: 10, Run: func(c *core.Ctx) { settersUnconditional(c); polarityEverywhere(c, "C15") }},
 			{ID: "C15-R7", Title: "the store gate of updateValue is the read-permission predicate over Perms; the stored value is the clamp's result unchanged (shared with C11-R2/R5, C12-R5)", Decides: "a readable characteristic holds its constructor's default, inside the declared bounds", Floor: 5, Run: func(c *core.Ctx) { c11r2(c); c11r5(c); storedIsClampResult(c) }},
